@@ -88,9 +88,11 @@ impl<T: A2lObjectName> ItemList<T> {
     pub fn swap_remove(&mut self, key: &str) -> Option<T> {
         let index = self.map.remove(key)?;
         let item = self.items.swap_remove(index);
-        // the last item was swapped into the index, so we need to update the map
-        self.map
-            .insert(self.items[index].get_name().to_string(), index);
+        // if the last item was swapped into the index, we need to update the map
+        if index < self.items.len() {
+            self.map
+                .insert(self.items[index].get_name().to_string(), index);
+        }
         Some(item)
     }
 
@@ -100,9 +102,11 @@ impl<T: A2lObjectName> ItemList<T> {
             let item = self.items.swap_remove(index);
             // remove the item from the map
             self.map.remove(item.get_name());
-            // the last item was swapped into the index, so we need to update the map
-            self.map
-                .insert(self.items[index].get_name().to_string(), index);
+            // if the last item was swapped into the index, we need to update the map
+            if index < self.items.len() {
+                self.map
+                    .insert(self.items[index].get_name().to_string(), index);
+            }
             Some(item)
         } else {
             None
